@@ -1,0 +1,17 @@
+//go:build verif
+
+package io
+
+// Add-only verification hook (never compiled into normal builds): exposes
+// internal.ComputeJobsPerTask, which the verification harness cannot import
+// because the package is internal.  Same call shape as every call site in
+// this module: a fresh slice of `tasks` entries.
+
+import (
+	internal "github.com/flanglet/kanzi-go/v2/internal"
+)
+
+// VerifComputeJobsPerTask returns internal.ComputeJobsPerTask(make([]uint, tasks), jobs, tasks).
+func VerifComputeJobsPerTask(jobs, tasks uint) ([]uint, error) {
+	return internal.ComputeJobsPerTask(make([]uint, tasks), jobs, tasks)
+}
